@@ -15,6 +15,17 @@ pub fn gen_tree(args: &[String]) -> i32 {
         }
     };
     let mut config = conjure_codegen::Config::new();
+    apply(&mut config, &cfg);
+    match config.generate_files(&args[0], &args[1]) {
+        Ok(()) => 0,
+        Err(e) => {
+            eprintln!("{e:?}");
+            1
+        }
+    }
+}
+
+fn apply(config: &mut conjure_codegen::Config, cfg: &Value) {
     config.exhaustive(cfg["exhaustive"].as_bool().unwrap_or(false));
     config.serialize_empty_collections(cfg["serialize_empty_collections"].as_bool().unwrap_or(false));
     if let Some(p) = cfg["strip_prefix"].as_str() {
@@ -26,11 +37,27 @@ pub fn gen_tree(args: &[String]) -> i32 {
     if let Some(v) = cfg["version"].as_str() {
         config.version(v.to_string());
     }
-    match config.generate_files(&args[0], &args[1]) {
-        Ok(()) => 0,
-        Err(e) => {
-            eprintln!("{e:?}");
-            1
+}
+
+/// C20 (histories): SEVERAL generations in one process and on one thread (`vh gen-seq <steps.json>`); a step with
+/// `same_config` applies its setters to the Config object of the previous step instead of a fresh one.  Prints one
+/// JSON line per step.
+pub fn gen_seq(args: &[String]) -> i32 {
+    let steps: Vec<Value> = match args.first().and_then(|p| std::fs::read_to_string(p).ok()).and_then(|t| serde_json::from_str(&t).ok()) {
+        Some(v) => v,
+        None => {
+            eprintln!("usage: gen-seq <steps.json>");
+            return 2;
         }
+    };
+    let mut config = conjure_codegen::Config::new();
+    for (k, st) in steps.iter().enumerate() {
+        if !st["same_config"].as_bool().unwrap_or(false) {
+            config = conjure_codegen::Config::new();
+        }
+        apply(&mut config, &st["config"]);
+        let r = config.generate_files(st["ir"].as_str().unwrap_or(""), st["out"].as_str().unwrap_or(""));
+        println!("{}", serde_json::json!({"step": k, "ok": r.is_ok(), "error": r.err().map(|e| format!("{e:?}"))}));
     }
+    0
 }
